@@ -504,6 +504,29 @@ pub fn run_c16(run: &mut Run) -> PResult {
         }
     }
     run.generator("0, all one- and two-bit values", "exhaustive", Some(vals.len() as u64), n, nt, "non-trivial = the 2,016 two-bit values");
+    if !run.is_twin() {
+        let hit = engine::ordered_pairs(&vals, &|a| { let _ = std::hint::black_box(Two::try_from(*a)); }, &|b| two_clause(*b));
+        let np = (vals.len() * vals.len()) as u64;
+        run.generator("all ordered pairs of one- and two-bit values converted back to back", "exhaustive (histories of length 2)", Some(np), np, np, "");
+        if let Some((a, b, m)) = hit {
+            return run.violation("C16.sequence", &format!("{:#x} ; {:#x}", vals[a], vals[b]), json!({"sets": [format!("{:#x}", vals[a]), format!("{:#x}", vals[b])]}), &format!("after converting {:#x}: {}", vals[a], m));
+        }
+        // a valid pair, then the same pair with extra bits (card or overflow): the second must be judged on its own
+        let mut ns = 0u64;
+        for s in vals.iter().filter(|x| x.count_ones() == 2 && **x >> 52 == 0) {
+            let mut variants: Vec<u64> = (0..64).map(|b| s | (1u64 << b)).filter(|v| v != s).collect();
+            variants.extend([s | !ALL52, s | (0xFFFu64 << 40), *s]);
+            for v in variants {
+                ns += 1;
+                let _ = std::hint::black_box(Two::try_from(*s));
+                if let Err(m) = two_clause(v) {
+                    run.generator("a valid pair, then the same set with one more bit", "exhaustive (histories of length 2)", None, ns, ns, "");
+                    return run.violation("C16.sequence", &format!("{:#x} ; {:#x}", s, v), json!({"sets": [format!("{:#x}", s), format!("{:#x}", v)]}), &format!("after converting {:#x}: {}", s, m));
+                }
+            }
+        }
+        run.generator("a valid pair, then the same set with one more bit", "exhaustive (histories of length 2)", Some(ns), ns, ns, "1,326 valid pairs x (each of the 62 other bits, all overflow bits, a block of card bits, the pair again)");
+    }
     run.class("two card bits (must succeed)", valid2);
     run.class("two bits, at least one above the card bits (InvalidBinaryFormat)", over2);
     run.sample(json!({"set": "0x8000000000001", "result": "A♠ 2♣"}));
@@ -543,6 +566,13 @@ pub fn run_c16(run: &mut Run) -> PResult {
 pub fn check_case_c16(clause: &str, case: &Value) -> Result<(), String> {
     match clause {
         "C16.fuzz" | "C15.fuzz" => super::fuzz::check_fuzz_case(case),
+        "C16.sequence" => {
+            let _ = std::hint::black_box(Two::try_from(0x3u64 << 20));
+            for (i, s) in case["sets"].as_array().ok_or("sets")?.iter().enumerate() {
+                two_clause(super::c14::parse_set(s)?).map_err(|m| format!("call {}: {}", i + 1, m))?;
+            }
+            Ok(())
+        }
         _ => two_clause(super::c14::parse_set(&case["set"])?),
     }
 }
